@@ -30,7 +30,7 @@ def _method(py, cls, name):
     ci = py.cls(cls)
     for k, v in ci.methods.items():
         if k == name or k.endswith("__" + name.lstrip("_")) or k == f"_{cls}{name}":
-            return v
+            return py.ifunc(f"{cls}.{k}")      # canonical form: a predicate wrapped in a private property reads like the inline test
     raise AnalysisError(f"{cls}.{name} not found")
 
 
@@ -264,7 +264,7 @@ def r1_columns(ctx, rep):
                     conj = sorted(ast.unparse(v) for v in (core.values if isinstance(core, ast.BoolOp) and isinstance(core.op, ast.And) else [core]))
                     users.append((fn.name.split("__")[-1], tuple(conj)))
     preds = {p for _, p in users}
-    ok = len(users) == 3 and preds == {("self.isLong", "self.is_regular")}
+    ok = len(users) >= 3 and preds == {("self.isLong", "self.is_regular")}
     ob("the three long-line users test the same predicate", ok, "analyse/convert/continueLine all test isLong and is_regular",
        f"long-line handling is keyed differently in {users}: truncation and continuation disagree when the limit is off", cl)
     # continuation mark of a long card: placed within the first 72 columns, the excess re-attached after column 72
